@@ -131,6 +131,21 @@ def discharge(obligations, timeout_s=20, jobs=None, seed=0, keep_smt2=3, cvc5_al
                     r = {"result": "unknown", "reason": "worker failure: %r" % (e,), "time_s": 0.0,
                          "backend": "z3"}
                 results[i] = r
+        # a worker that never answered (rare: a forked z3 that hangs in its timer machinery) says nothing
+        # about the obligation: retry each such obligation in a fresh worker before reporting unknown
+        for attempt in range(2):
+            stuck = [i for i, r in enumerate(results) if r.get("reason") == "hard timeout" or str(r.get("reason", "")).startswith("worker failure")]
+            if not stuck:
+                break
+            with ctx.Pool(min(jobs, len(stuck))) as pool:
+                asyncs = [(i, pool.apply_async(_solve, (tasks[i],))) for i in stuck]
+                for i, a in asyncs:
+                    try:
+                        _, r = a.get(timeout=timeout_s * 3 + 30)
+                        r["retried"] = attempt + 1
+                        results[i] = r
+                    except Exception:
+                        pass
     # cvc5: take z3's unknowns (and everything in the thorough tier)
     kept = 0
     for i, r in enumerate(results):
